@@ -73,11 +73,16 @@ pub struct Config {
     pub layers: Vec<Filt>,
     pub global: Option<u8>,
     pub pass: Vec<usize>, // positions (before layer i) of pass-through layers
+    /// Filters applied through `tracing_subscriber`'s per-layer filtering (`Layer::with_filter`)
+    /// instead of `CaptureLayer::with_filter`; an unfiltered pass-through layer is then always
+    /// present, so that the registry still creates every (globally enabled) span. Used for C16 only
+    /// (no panic; what a layer captures in a stack equals what it captures alone).
+    pub per_layer: bool,
 }
 
 impl Config {
     pub fn parse(rest: &[String]) -> Self {
-        let mut cfg = Config { layers: vec![Filt::All], global: None, pass: vec![] };
+        let mut cfg = Config { layers: vec![Filt::All], global: None, pass: vec![], per_layer: false };
         for l in rest {
             let mut t = Toks::new(l);
             match t.next() {
@@ -94,6 +99,7 @@ impl Config {
                     }
                 }
                 Some("gfilter") => cfg.global = t.num(),
+                Some("perlayer") => cfg.per_layer = t.num::<u8>() == Some(1),
                 Some("pass") => {
                     if let Some(p) = t.num() {
                         cfg.pass.push(p);
@@ -128,13 +134,15 @@ impl Config {
                 });
             }
             let layer = CaptureLayer::<Registry>::new(st);
-            let layer = match f.clone() {
-                Filt::All => layer,
-                f => layer.with_filter(filter_fn(move |meta| f.enabled(meta))),
-            };
-            layers.push(Box::new(layer));
+            match f.clone() {
+                Filt::All => layers.push(Box::new(layer)),
+                f if self.per_layer => {
+                    layers.push(Box::new(Layer::with_filter(layer, filter_fn(move |meta| f.enabled(meta)))));
+                }
+                f => layers.push(Box::new(layer.with_filter(filter_fn(move |meta| f.enabled(meta))))),
+            }
         }
-        if self.pass.contains(&self.layers.len()) {
+        if self.pass.contains(&self.layers.len()) || self.per_layer {
             layers.push(Box::new(PassThrough::<9>));
         }
         (Dispatch::new(Registry::default().with(layers)), storages)
@@ -553,6 +561,12 @@ impl Suite for Capture {
         if rng.chance(1, 4) {
             lines.push(format!("gfilter {}", rng.range(1, 4)));
         }
+        if focus == "C16" && rng.chance(1, 3) {
+            // only for C16 (no panic, independence): under per-layer filtering the contextual parent is
+            // tracing-subscriber's nearest *entered* span enabled for the filter, which is not the
+            // model's (and C05's) nearest captured ancestor when spans are entered out of hierarchy order
+            lines.push("perlayer 1".into());
+        }
         if focus == "C16" || rng.chance(1, 5) {
             for p in 0..=n_layers {
                 if rng.chance(1, 3) {
@@ -630,7 +644,7 @@ impl Suite for Capture {
                 out.docs.push("F end".into());
             }
             // ---- C05: the storage against the independent reference interpreter
-            if !panicked {
+            if !panicked && !cfg.per_layer {
                 let want = expected_dump(&prog.sites, &cfg.layers[i], &fe_log, &format!("L{i} "));
                 if want != d {
                     let k = want.iter().zip(&d).position(|(a, b)| a != b).unwrap_or(want.len().min(d.len()));
@@ -667,7 +681,7 @@ impl Suite for Capture {
         // ---- C16: each layer captures what it would capture alone
         if cfg.layers.len() > 1 || !cfg.pass.is_empty() {
             for (i, f) in cfg.layers.iter().enumerate() {
-                let solo = Config { layers: vec![f.clone()], global: cfg.global, pass: vec![] };
+                let solo = Config { layers: vec![f.clone()], global: cfg.global, pass: vec![], per_layer: cfg.per_layer };
                 let (st, p) = run_capture(&prog, &solo);
                 if p {
                     continue; // reported by the single-layer run of another case
